@@ -671,6 +671,26 @@ def run(ctx):
         k1_big(ctx, rng)
 
 
+def dense_scc_instance(p, q):
+    """one big SCC u -> v -> a_i -> b_j -> u (all p*q pairs) between a single source and a single sink: one walk covers
+    everything (the SCC is strongly connected), but it has to run through the bottleneck edges u->v and b_j->u many
+    times - an input for the per-edge repetition caps"""
+    A = [f"a{i}" for i in range(p)]; B = [f"b{j}" for j in range(q)]
+    edges = [("s", "u"), ("u", "v")] + [("v", a) for a in A] + [(a, b) for a in A for b in B] + [(b, "u") for b in B] + [("v", "t")]
+    nodes = ["s", "u", "v"] + A + B + ["t"]
+    return {"cls": "MinPathCoverCycles", "nodes": nodes, "edges": [list(e) for e in edges], "origin": "edge",
+            "constraints": [], "coverage": "1", "ignore": [], "starts": [], "ends": [], "options": {}, "weight_type": "int",
+            "tags": ["dense-scc"]}
+
+
+def dense_scc_cases(ctx, suite="K5.dense_scc"):
+    for (p, q) in ([(2, 2), (3, 3), (4, 4)] if ctx.quick() else [(2, 2), (3, 3), (3, 4), (4, 4), (4, 5)]):
+        inst = dense_scc_instance(p, q)
+        ctx.rep.count(suite, inst, nontrivial=True, hist=["dense-scc", f"D({p},{q})"])
+        check_min_model(ctx, inst, 1, suite)      # minimum is 1: a closed walk through all edges of the SCC exists
+        check_k_models(ctx, inst, 1, suite)
+
+
 def finding_case(ctx, inp):
     if models.is_cyc(inp["cls"]):
         k5_cyc(ctx, dict(inp, cls="MinPathCoverCycles"), suite="known-findings")
@@ -680,6 +700,7 @@ def finding_case(ctx, inp):
 
 def search(ctx):
     rng = random.Random(9009)
+    dense_scc_cases(ctx, suite="search.dense_scc")
     for it in range(150):
         k5_dag(ctx, dag_instance(rng), suite="search.dag")
         k5_cyc(ctx, cyc_instance(rng), suite="search.cyc")
